@@ -43,7 +43,22 @@ pub fn run(o: &Opts) {
           // by text with newlines, insert at a node start; or a real replacement from a pattern match
           let a = rng.pick(&nodes).clone();
           let b = rng.pick(&nodes).clone();
-          let (pos, del, ins): (usize, usize, String) = match rng.below(7) {
+          let (pos, del, ins): (usize, usize, String) = match rng.below(9) {
+            // same length, another token class: an identifier-like leaf overwritten by digits / by another leaf's text of equal length
+            7 | 8 => {
+              let leaves: Vec<&N> = nodes.iter().filter(|n| n.is_named() && n.children().count() == 0 && !n.range().is_empty() && n.text().is_ascii()).collect();
+              if leaves.is_empty() {
+                continue;
+              }
+              let l = (*rng.pick(&leaves)).clone();
+              let len = l.range().len();
+              let other = leaves.iter().find(|m| m.range().len() == len && m.kind_id() != l.kind_id()).map(|m| m.text().to_string());
+              let ins = match other {
+                Some(t) if rng.chance(1, 2) => t,
+                _ => if l.text().chars().all(|c| c.is_ascii_digit()) { "x".repeat(len) } else { "7".repeat(len) },
+              };
+              (l.range().start, len, ins)
+            }
             0 => (a.range().start, a.range().len(), String::new()),
             1 => (a.range().start, a.range().len(), b.text().to_string()),
             2 => (a.range().start, 0, format!("{} ", b.text())),
